@@ -8,6 +8,7 @@ OUTS_XX = [(), ("x",), ("xx",), ("x", "xx")]      # output symbols whose concate
 
 
 def outs(scheme):
+    scheme = scheme.replace("+tuple", "")
     return OUTS_XX if scheme.endswith("+xx") else OUTS
 IN = {0: None, 1: "a", 2: "b"}
 
@@ -49,7 +50,7 @@ def thaw(case):
 
 
 def names(scheme, q):
-    scheme = scheme.replace("+xx", "")
+    scheme = scheme.replace("+tuple", "").replace("+xx", "")
     if scheme == "hub":        # names the library itself invents for the state added by kleene_star
         return ["star", "star0", "q"][:q]
     if scheme == "str":
